@@ -146,7 +146,7 @@ func (s *Solver) GetValues(vars []*Term) (map[string]uint64, error) {
 		sb.WriteString(v.Name)
 		sb.WriteByte(' ')
 	}
-	sb.WriteString("))\n")
+	sb.WriteString("))\n(echo \"@@\")\n")
 	s.Send(sb.String())
 	// read until parentheses balance
 	var text strings.Builder
@@ -169,6 +169,13 @@ func (s *Solver) GetValues(vars []*Term) (map[string]uint64, error) {
 			}
 		}
 		if started && depth <= 0 {
+			break
+		}
+	}
+	// consume the echo marker (forces the solver to flush its output)
+	for {
+		line := s.readLine()
+		if strings.Contains(line, "@@") {
 			break
 		}
 	}
